@@ -24,6 +24,7 @@ func runNI(c *Ctx) (obls []Obl) {
 	defer a.flush()
 	niFlow(c, a)
 	niWidth(c, a)
+	niWidthMax(c, a)
 	niWriters(c, a)
 	niHeaders(c, a)
 	niCreator(c, a)
@@ -95,6 +96,55 @@ func niHeaders(c *Ctx, a *flAgg) {
 			}
 			if (strings.Contains(extra, "SleepString(") != !sleepEmpty) || (strings.Contains(extra, "[locked]") != locked) || (strings.Contains(extra, "createdByString(") != !createdEmpty) {
 				okAll, why = false, "sleep range, lock marker or creator are not shown exactly when present"
+			}
+			// the race note of a goroutine of a race report: shown iff the address is
+			// set, "write" iff the access was a write, with that goroutine's address
+			if h.name == "GoroutineHeader" {
+				raceZero, haveRace := false, false
+				write, haveWrite := false, false
+				for _, lt := range p.Lits {
+					s := lt.Atom.String()
+					if strings.HasSuffix(s, ".RaceAddr == 0)") {
+						raceZero, haveRace = lt.Pol, true
+					}
+					if strings.HasSuffix(s, ".RaceWrite") {
+						write, haveWrite = lt.Pol, true
+					}
+				}
+				shown := strings.Contains(extra, " Race ")
+				switch {
+				case !haveRace:
+					okAll, why = false, "the header does not look at RaceAddr"
+				case shown != !raceZero:
+					okAll, why = false, "the race note is not shown exactly for the goroutines of a race report"
+				case shown:
+					// operands of the note's Sprintf
+					ops := ""
+					var note *Expr
+					r.walk(func(e *Expr) bool { return true })
+					for _, ev := range p.Events {
+						if ev.Kind == EvCall && ev.Val.calleeIs("fmt", "Sprintf") && len(ev.Val.Args) == 3 {
+							if f, ok := constStr(ev.Val.Args[1]); ok && strings.Contains(f, " Race ") {
+								note = ev.Val
+							}
+						}
+					}
+					if note != nil && note.Args[2].Op == OpSlice {
+						narr := note.Args[2].Args[0].String()
+						for i := 0; i < 6; i++ {
+							if v := p.Cells[fmt.Sprintf("%s[%d]", narr, i)]; v != nil {
+								ops += v.String() + " | "
+							}
+						}
+					}
+					wantWord := `"read"`
+					if haveWrite && write {
+						wantWord = `"write"`
+					}
+					if !haveWrite || !strings.Contains(ops, wantWord) || !strings.Contains(ops, subj+".RaceAddr") {
+						okAll, why = false, "the race note does not say "+wantWord+" with the goroutine's address ("+ops+")"
+					}
+				}
 			}
 			// in the order: sleep range, lock marker, creator (then the race note)
 			last := -1
@@ -820,6 +870,11 @@ func niFormat(c *Ctx, a *flAgg) {
 				okAll, why = false, "a frame line is not made of exactly one path and the line number: "+rs
 				continue
 			}
+			// "<path>:<line>": the path comes first
+			if strings.Index(rs, call+".Line") < strings.Index(rs, call+"."+shown) {
+				okAll, why = false, "the line number is put where the path belongs (and the path under the number verb): "+rs
+				continue
+			}
 			// every completion of the undecided facts must agree with the reference
 			for _, rk := range []bool{true, false} {
 				if decided["RelSrcPath"] && rk != known["RelSrcPath"] {
@@ -1074,4 +1129,221 @@ func niFlags(c *Ctx, a *flAgg) {
 		}
 	}
 	_ = bad
+}
+
+// niWidthMax (NI-width/<fn>/maximum, /result-order) and niWidthWiring
+// (NI-width/wiring): the two widths are running maxima over all calls, are
+// returned in the order (source column, package column), and reach callLine
+// in those roles: backwards from callLine's parameters that are the width
+// operands of the package and of the source column, every call site passes
+// the caller's parameter of the same role, and the writers pass result 0 / 1
+// of their calc*Lengths call.
+func niWidthMax(c *Ctx, a *flAgg) {
+	for _, name := range []string{"calcBucketsLengths", "calcGoroutinesLengths"} {
+		fn := c.L.Func("internal", "", name)
+		if fn == nil {
+			continue
+		}
+		exprHome = fn.Pkg.Pkg
+		// the innermost loop (over the calls)
+		var inner *loopInfo
+		for _, l := range naturalLoops(fn) {
+			if inner == nil || len(l.Body) < len(inner.Body) {
+				inner = l
+			}
+		}
+		if inner == nil {
+			a.und("NI-width", name+"/maximum", "no loop over the calls found", fn.Pos())
+			continue
+		}
+		seg := &SPE{Fn: fn, Start: inner.Header, MaxVisits: 2}
+		seg.Stop = func(from, to *ssa.BasicBlock) bool {
+			return (to == inner.Header && inner.Body[from]) || (inner.Body[from] && !inner.Body[to])
+		}
+		seg.Explore()
+		okMax, n := true, 0
+		why := ""
+		colOf := map[string]string{} // phi name -> column it is the maximum of
+		for _, p := range seg.Paths {
+			if !(p.Term == "stop" && p.End == inner.Header) {
+				continue
+			}
+			n++
+			for phiName, nv := range p.StopPhis {
+				old := "?phi:" + phiName
+				if nv == nil || nv.Type == nil || !isIntType(nv.Type) {
+					continue
+				}
+				if strings.HasPrefix(nv.String(), "(?phi:") || nv.String() == old && false {
+					continue
+				}
+				// the loop index
+				if strings.Contains(nv.String(), old+" + 1") {
+					continue
+				}
+				if nv.String() == old {
+					// unchanged: every measured length of the column must have been found not larger
+					continue
+				}
+				// changed: must be a measured length l with (old < l) on the path
+				col := ""
+				switch {
+				case nv.Op == OpBuiltin && nv.Name == "len" && strings.Contains(nv.String(), "formatCall("):
+					col = "src"
+				case nv.Op == OpBuiltin && nv.Name == "len" && strings.HasSuffix(nv.String(), ".Func.DirName)"):
+					col = "pkg"
+				default:
+					okMax, why = false, phiName+" is set to "+nv.String()
+					continue
+				}
+				if prev, ok := colOf[phiName]; ok && prev != col {
+					okMax, why = false, phiName+" is fed by both columns"
+				}
+				colOf[phiName] = col
+				gt, ok1 := p.lit("(" + old + " < " + nv.String() + ")")
+				lt2, ok2 := p.lit("(" + nv.String() + " < " + old + ")") // l >= old: replacing by an equal value changes nothing
+				if !((ok1 && gt) || (ok2 && !lt2)) {
+					okMax, why = false, phiName+" is replaced by a measured length that was not found larger ("+litsString(p)+")"
+				}
+			}
+			// a larger measured length must replace the maximum
+			for _, lt := range p.Lits {
+				at := lt.Atom
+				if !lt.Pol || at.Op != OpBin || at.Tok != token.LSS || !strings.HasPrefix(at.Args[0].String(), "?phi:") {
+					continue
+				}
+				r := at.Args[1]
+				if r.Op == OpBuiltin && r.Name == "len" && (strings.Contains(r.String(), "formatCall(") || strings.HasSuffix(r.String(), ".Func.DirName)")) {
+					phiName := strings.TrimPrefix(at.Args[0].String(), "?phi:")
+					if nv := p.StopPhis[phiName]; nv == nil || nv.String() != r.String() {
+						okMax, why = false, "a length found larger than "+phiName+" does not replace it"
+					}
+				}
+			}
+		}
+		src, pkg := "", ""
+		for k, v := range colOf {
+			if v == "src" {
+				src = k
+			} else {
+				pkg = k
+			}
+		}
+		if n == 0 || src == "" || pkg == "" {
+			okMax = false
+			if why == "" {
+				why = "the running maxima of the two columns were not both found"
+			}
+		}
+		if okMax {
+			a.ok("NI-width", name+"/maximum", "both widths are running maxima: a measured length replaces the width iff it is larger", fn.Pos())
+		} else {
+			a.bad("NI-width", name+"/maximum", "the width is not the maximum of the measured lengths ("+why+"): columns narrower than their content are not aligned", fn.Pos())
+		}
+		// result order: (source width, package width)
+		okOrder := false
+		for _, b := range fn.Blocks {
+			for _, in := range b.Instrs {
+				if ret, ok := in.(*ssa.Return); ok && len(ret.Results) == 2 {
+					n0, n1 := "", ""
+					if ph, ok := ret.Results[0].(*ssa.Phi); ok {
+						n0 = ph.Comment
+					}
+					if ph, ok := ret.Results[1].(*ssa.Phi); ok {
+						n1 = ph.Comment
+					}
+					okOrder = n0 == src && n1 == pkg && src != ""
+				}
+			}
+		}
+		if okOrder {
+			a.ok("NI-width", name+"/result-order", "returns (source width, package width)", fn.Pos())
+		} else {
+			a.bad("NI-width", name+"/result-order", "the two widths are not returned as (source width, package width)", fn.Pos())
+		}
+	}
+	// wiring from callLine back to the writers
+	cl := c.L.Func("internal", "Palette", "callLine")
+	if cl == nil {
+		return
+	}
+	type slot struct {
+		fn  *ssa.Function
+		idx int
+	}
+	role := map[slot]string{}
+	for i, p := range cl.Params {
+		switch p.Name() {
+		case "srcLen":
+			role[slot{cl, i}] = "src"
+		case "pkgLen":
+			role[slot{cl, i}] = "pkg"
+		}
+	}
+	if len(role) != 2 {
+		a.und("NI-width", "wiring", "callLine has no srcLen/pkgLen parameters", cl.Pos())
+		return
+	}
+	fns := c.L.SrcFuncs("internal")
+	work := []*ssa.Function{cl}
+	seen := map[*ssa.Function]bool{}
+	tops := 0
+	for len(work) > 0 {
+		h := work[0]
+		work = work[1:]
+		if seen[h] {
+			continue
+		}
+		seen[h] = true
+		for _, g := range fns {
+			for _, b := range g.Blocks {
+				for _, in := range b.Instrs {
+					ci, ok := in.(ssa.CallInstruction)
+					if !ok || ci.Common().StaticCallee() != h {
+						continue
+					}
+					for i := range h.Params {
+						r := role[slot{h, i}]
+						if r == "" || i >= len(ci.Common().Args) {
+							continue
+						}
+						key := "wiring:" + fnName(g) + "->" + fnName(h) + "/" + r
+						switch arg := ci.Common().Args[i].(type) {
+						case *ssa.Parameter:
+							pi := -1
+							for k, q := range g.Params {
+								if q == arg {
+									pi = k
+								}
+							}
+							if old := role[slot{g, pi}]; old != "" && old != r {
+								a.bad("NI-width", key, "one parameter is passed on as both widths", in.Pos())
+								continue
+							}
+							role[slot{g, pi}] = r
+							a.ok("NI-width", key, "passed on unchanged", in.Pos())
+							if !seen[g] {
+								work = append(work, g)
+							}
+						case *ssa.Extract:
+							want := map[string]int{"src": 0, "pkg": 1}[r]
+							call, isCall := arg.Tuple.(*ssa.Call)
+							okCalc := isCall && call.Call.StaticCallee() != nil && strings.HasPrefix(call.Call.StaticCallee().Name(), "calc") && strings.HasSuffix(call.Call.StaticCallee().Name(), "Lengths")
+							if okCalc && arg.Index == want {
+								tops++
+								a.ok("NI-width", key, fmt.Sprintf("result %d of %s", want, call.Call.StaticCallee().Name()), in.Pos())
+							} else {
+								a.bad("NI-width", key, fmt.Sprintf("the %s column is padded to the other column's width (result %d instead of %d of the width computation)", r, arg.Index, want), in.Pos())
+							}
+						default:
+							a.bad("NI-width", key, "the width handed on is neither the caller's own nor a result of the width computation: "+arg.String(), in.Pos())
+						}
+					}
+				}
+			}
+		}
+	}
+	if tops == 0 {
+		a.und("NI-width", "wiring", "no writer passes the computed widths", cl.Pos())
+	}
 }
